@@ -14,21 +14,20 @@ Combined Scheme val_mutind from val_ind3, vflds_ind3, vlist_ind3.
 
 (* ------------------------------------------------------------------ basics *)
 
-Lemma key_eqb_eq k1 k2 : key_eqb k1 k2 = true <-> k1 = k2.
+Lemma mkey_eqb_eq k1 k2 : mkey_eqb k1 k2 = true <-> k1 = k2.
 Proof.
-  destruct k1 as [[c1 t1] v1], k2 as [[c2 t2] v2]. unfold key_eqb.
-  rewrite !andb_true_iff, Bool.eqb_true_iff, !String.eqb_eq.
+  destruct k1 as [[c1 t1] v1], k2 as [[c2 t2] v2]. unfold mkey_eqb.
+  rewrite !andb_true_iff, Nat.eqb_eq, !String.eqb_eq.
   split; [intros [[-> ->] ->]; reflexivity | intros H; inversion H; auto].
 Qed.
 
-Lemma key_eqb_refl k : key_eqb k k = true.
-Proof. apply key_eqb_eq; reflexivity. Qed.
+Lemma mkey_eqb_refl k : mkey_eqb k k = true.
+Proof. apply mkey_eqb_eq; reflexivity. Qed.
 
-Lemma key_eqb_neq k1 k2 : key_eqb k1 k2 = false <-> k1 <> k2.
+Lemma mkey_of_nkey w1 w2 k1 k2 : mkey_of w1 k1 = mkey_of w2 k2 -> k1 = k2.
 Proof.
-  split.
-  - intros H E. apply key_eqb_eq in E. congruence.
-  - intros H. destruct (key_eqb k1 k2) eqn:E; [apply key_eqb_eq in E; contradiction | reflexivity].
+  destruct k1 as [[u1 t1] v1], k2 as [[u2 t2] v2]. unfold mkey_of. intros H. inversion H; subst.
+  destruct u1, u2; try reflexivity; destruct w1, w2; discriminate.
 Qed.
 
 Lemma find_type_in e t r : find_type e t = Some r -> exists n, In (n, r) e.
@@ -55,21 +54,47 @@ Proof.
   - apply String.eqb_neq in E. rewrite IH. tauto.
 Qed.
 
+Lemma find_attr_in_in l a x : find_attr_in l a = Some x -> In x l /\ a_name x = a.
+Proof.
+  induction l as [|y l IH]; simpl; [discriminate|].
+  destruct (String.eqb (a_name y) a) eqn:E; intros H.
+  - inversion H; subst. split; [now left | now apply String.eqb_eq].
+  - destruct (IH H). split; [now right | assumption].
+Qed.
+
+Lemma view_entry_in l a ov : view_entry l a = Some ov -> In (a, ov) l.
+Proof.
+  induction l as [|[b o] l IH]; simpl; [discriminate|].
+  destruct (String.eqb b a) eqn:E; intros H.
+  - apply String.eqb_eq in E. inversion H; subst. now left.
+  - right; auto.
+Qed.
+
 Lemma norm_idem v : norm (norm v) = norm v.
 Proof.
   unfold norm. destruct (String.eqb v "") eqn:E; [reflexivity|]. now rewrite E.
 Qed.
 
-(* the result-type reference of an attribute type *)
-Definition rt_of (ty : atype) : option (bool * name) :=
-  match ty with TLeaf _ => None | TRes t => Some (false, t) | TColl t => Some (true, t) end.
+(* entries of a node, unpacked *)
+Lemma entries_inv e k r l :
+  entries e k = Some (r, l) ->
+  find_type e (snd (fst k)) = Some r /\
+  ((fst (fst k) = true /\ l = map (fun a => (a_name a, None)) (r_attrs r)) \/
+   (fst (fst k) = false /\ exists w, find_view r (snd k) = Some w /\ l = v_attrs w)).
+Proof.
+  destruct k as [[usr t] v]. simpl. destruct (find_type e t) as [r'|]; [|discriminate].
+  destruct usr.
+  - intros H; inversion H; subst. split; [reflexivity|]. left; auto.
+  - destruct (find_view r' v) as [w|] eqn:Fv; [|discriminate].
+    intros H; inversion H; subst. split; [reflexivity|]. right. split; [reflexivity|]. eauto.
+Qed.
 
 (* ------------------------------------------------ the memo: order and counting *)
 
-Definition is_seen (m : list (key * nat)) (k : key) : bool :=
+Definition is_seen (m : list (mkey * nat)) (k : mkey) : bool :=
   match lookup m k with Some _ => true | None => false end.
 
-Definition mono (m m' : list (key * nat)) : Prop :=
+Definition mono (m m' : list (mkey * nat)) : Prop :=
   forall k id, lookup m k = Some id -> lookup m' k = Some id.
 
 Lemma mono_refl m : mono m m.
@@ -80,11 +105,11 @@ Proof. intros A B k id H. apply B, A, H. Qed.
 
 Lemma mono_cons m k id : lookup m k = None -> mono m ((k, id) :: m).
 Proof.
-  intros Hn k' id' H. simpl. destruct (key_eqb k k') eqn:E; [|exact H].
-  apply key_eqb_eq in E. subst. congruence.
+  intros Hn k' id' H. simpl. destruct (mkey_eqb k k') eqn:E; [|exact H].
+  apply mkey_eqb_eq in E. subst. congruence.
 Qed.
 
-Definition unseen (U : list key) (m : list (key * nat)) : nat :=
+Definition unseen (U : list mkey) (m : list (mkey * nat)) : nat :=
   List.length (filter (fun k => negb (is_seen m k)) U).
 
 Lemma filter_len_le {A} (p q : A -> bool) (l : list A) :
@@ -117,53 +142,74 @@ Qed.
 Lemma unseen_cons U m k id : In k U -> lookup m k = None -> unseen U ((k, id) :: m) < unseen U m.
 Proof.
   intros Hin Hn. unfold unseen. apply filter_len_lt with (x0 := k); auto.
-  - intros k'. unfold is_seen. simpl. destruct (key_eqb k k'); [discriminate|].
+  - intros k'. unfold is_seen. simpl. destruct (mkey_eqb k k'); [discriminate|].
     destruct (lookup m k'); auto.
   - unfold is_seen. now rewrite Hn.
-  - unfold is_seen. simpl. now rewrite key_eqb_refl.
+  - unfold is_seen. simpl. now rewrite mkey_eqb_refl.
 Qed.
 
-(* keys of a design *)
-Lemma entry_keys_app r l1 l2 : entry_keys r (l1 ++ l2) = entry_keys r l1 ++ entry_keys r l2.
-Proof. unfold entry_keys. apply flat_map_app. Qed.
-
-Lemma all_keys_in e t r w :
-  find_type e t = Some r -> In w (r_views r) -> incl (entry_keys r (v_attrs w)) (all_keys e).
+Lemma unseen_le_all U m : unseen U m <= List.length U.
 Proof.
-  intros Ht Hw k Hk. destruct (find_type_in _ _ _ Ht) as [n Hn].
-  unfold all_keys. apply in_flat_map. exists (n, r). split; [exact Hn|].
-  apply in_flat_map. exists w. split; assumption.
+  unfold unseen. induction U as [|x l IH]; simpl; [lia|]. destruct (negb (is_seen m x)); simpl; lia.
+Qed.
+
+(* the names a design uses *)
+Lemma target_name_in e n r at_ v ov w k :
+  In (n, r) e -> In at_ (r_attrs r) -> target v ov at_ = Some (w, k) -> In (snd (fst k)) (target_names e).
+Proof.
+  intros Hn Ha Ht. unfold target_names. apply in_flat_map. exists (n, r). split; [exact Hn|].
+  apply in_flat_map. exists at_. split; [exact Ha|].
+  unfold target in Ht. unfold attr_targets. destruct (a_ty at_); inversion Ht; subst; simpl; auto.
+Qed.
+
+Lemma meta_view_in e n r at_ v : In (n, r) e -> In at_ (r_attrs r) -> a_meta at_ = Some v -> In v (view_names e).
+Proof.
+  intros Hn Ha Hm. unfold view_names. right. apply in_flat_map. exists (n, r). split; [exact Hn|].
+  apply in_or_app. left. apply in_flat_map. exists at_. split; [exact Ha|]. unfold attr_views. rewrite Hm. now left.
+Qed.
+
+Lemma view_name_in e n r w : In (n, r) e -> In w (r_views r) -> In (v_name w) (view_names e).
+Proof.
+  intros Hn Hw. unfold view_names. right. apply in_flat_map. exists (n, r). split; [exact Hn|].
+  apply in_or_app. right. apply in_flat_map. exists w. split; [exact Hw|]. now left.
+Qed.
+
+Lemma override_in e n r w a v : In (n, r) e -> In w (r_views r) -> In (a, Some v) (v_attrs w) -> In v (view_names e).
+Proof.
+  intros Hn Hw Ha. unfold view_names. right. apply in_flat_map. exists (n, r). split; [exact Hn|].
+  apply in_or_app. right. apply in_flat_map. exists w. split; [exact Hw|]. right.
+  apply in_flat_map. exists (a, Some v). split; [exact Ha|]. now left.
 Qed.
 
 (* --------------------------------------------------- more fuel changes nothing *)
 
-Definition rec_le (rec rec' : name -> name -> st -> res (itree * st)) : Prop :=
-  forall t v s x, rec t v s = x -> x <> Out -> rec' t v s = x.
+Definition rec_le (rec rec' : nkey -> st -> res (itree * st)) : Prop :=
+  forall k s x, rec k s = x -> x <> Out -> rec' k s = x.
 
-Lemma iattr_le rec rec' c t u s x :
-  rec_le rec rec' -> iattr rec c t u s = x -> x <> Out -> iattr rec' c t u s = x.
+Lemma iattr_le rec rec' w k s x :
+  rec_le rec rec' -> iattr rec w k s = x -> x <> Out -> iattr rec' w k s = x.
 Proof.
-  intros H. unfold iattr. destruct (lookup (memo s) (c, t, u)); [auto|].
-  destruct (rec t u _) as [[tr s2]| |] eqn:E; intros <- Hx.
-  - now rewrite (H _ _ _ _ E).
-  - rewrite (H _ _ _ _ E); [reflexivity | discriminate].
+  intros H. unfold iattr. destruct (lookup (memo s) (mkey_of w k)); [auto|].
+  destruct (rec k _) as [[tr s2]| |] eqn:E; intros <- Hx.
+  - now rewrite (H _ _ _ E).
+  - rewrite (H _ _ _ E); [reflexivity | discriminate].
   - congruence.
 Qed.
 
-Lemma nested_le rec rec' cont cont' a c t u s x :
+Lemma nested_le rec rec' cont cont' a w k s x :
   rec_le rec rec' ->
   (forall s y, cont s = y -> y <> Out -> cont' s = y) ->
-  ifield_nested rec cont a c t u s = x -> x <> Out -> ifield_nested rec' cont' a c t u s = x.
+  ifield_nested rec cont a w k s = x -> x <> Out -> ifield_nested rec' cont' a w k s = x.
 Proof.
   intros H Hc. unfold ifield_nested.
-  destruct (iattr rec c t u s) as [[[id [tr|]] s2]| |] eqn:E; intros Hx Hn.
-  - rewrite (iattr_le _ _ _ _ _ _ _ H E) by discriminate.
+  destruct (iattr rec w k s) as [[[id [tr|]] s2]| |] eqn:E; intros Hx Hn.
+  - rewrite (iattr_le _ _ _ _ _ _ H E) by discriminate.
     destruct (cont s2) as [[fs s3]| |] eqn:E2;
       [now rewrite (Hc _ _ E2) by discriminate | now rewrite (Hc _ _ E2) by discriminate | congruence].
-  - rewrite (iattr_le _ _ _ _ _ _ _ H E) by discriminate.
+  - rewrite (iattr_le _ _ _ _ _ _ H E) by discriminate.
     destruct (cont s2) as [[fs s3]| |] eqn:E2;
       [now rewrite (Hc _ _ E2) by discriminate | now rewrite (Hc _ _ E2) by discriminate | congruence].
-  - rewrite (iattr_le _ _ _ _ _ _ _ H E) by discriminate. exact Hx.
+  - rewrite (iattr_le _ _ _ _ _ _ H E) by discriminate. exact Hx.
   - congruence.
 Qed.
 
@@ -176,36 +222,42 @@ Proof.
     [now rewrite (Hc _ _ E2) by discriminate | now rewrite (Hc _ _ E2) by discriminate | congruence].
 Qed.
 
-Lemma ifields_le rec rec' r l :
-  rec_le rec rec' -> forall s x, ifields rec r l s = x -> x <> Out -> ifields rec' r l s = x.
+Lemma ifields_le rec rec' r v l :
+  rec_le rec rec' -> forall s x, ifields rec r v l s = x -> x <> Out -> ifields rec' r v l s = x.
 Proof.
   intros H. induction l as [|[a ov] l IH]; intros s x; simpl; [auto|].
   destruct (find_attr r a) as [at_|]; [|apply IH].
-  destruct (a_ty at_) as [p|t'|t'].
+  destruct (target v ov at_) as [[w k]|].
+  - apply nested_le; [exact H | exact IH].
   - apply leaf_le; exact IH.
-  - apply nested_le; [exact H | exact IH].
-  - apply nested_le; [exact H | exact IH].
 Qed.
+
+Lemma iproj_unfold f e n s :
+  iproj (S f) e n s =
+  match entries e n with
+  | None => Err
+  | Some (r, l) =>
+    match ifields (iproj f e) r (snd n) l s with
+    | Ok (fs, s') => Ok (INode n fs (req_in (fst (fst n)) r l), s')
+    | Err => Err
+    | Out => Out
+    end
+  end.
+Proof. reflexivity. Qed.
 
 Lemma iproj_S f e : rec_le (iproj f e) (iproj (S f) e).
 Proof.
-  induction f as [|f IH]; intros t v s x; [simpl; intros <- H; congruence|].
-  intros Hx Hn. change (iproj (S f) e t v s) with
-    (match find_type e t with None => Err | Some r => match find_view r v with None => Err | Some w =>
-       match ifields (iproj f e) r (v_attrs w) s with Ok (fs, s') => Ok (IObj t v fs (req_in_view r w), s') | Err => Err | Out => Out end end end) in Hx.
-  change (iproj (S (S f)) e t v s) with
-    (match find_type e t with None => Err | Some r => match find_view r v with None => Err | Some w =>
-       match ifields (iproj (S f) e) r (v_attrs w) s with Ok (fs, s') => Ok (IObj t v fs (req_in_view r w), s') | Err => Err | Out => Out end end end).
-  destruct (find_type e t) as [r|]; [|exact Hx].
-  destruct (find_view r v) as [w|]; [|exact Hx].
-  destruct (ifields (iproj f e) r (v_attrs w) s) as [[fs s']| |] eqn:E.
-  - now rewrite (ifields_le _ _ _ _ IH _ _ E) by discriminate.
-  - now rewrite (ifields_le _ _ _ _ IH _ _ E) by discriminate.
+  induction f as [|f IH]; intros n s x; [simpl; intros <- H; congruence|].
+  intros Hx Hn. rewrite iproj_unfold in Hx |- *.
+  destruct (entries e n) as [[r l]|]; [|exact Hx].
+  destruct (ifields (iproj f e) r (snd n) l s) as [[fs s']| |] eqn:E.
+  - now rewrite (ifields_le _ _ _ _ _ IH _ _ E) by discriminate.
+  - now rewrite (ifields_le _ _ _ _ _ IH _ _ E) by discriminate.
   - congruence.
 Qed.
 
-Lemma iproj_fuel_mono e f f' t v s x :
-  f <= f' -> iproj f e t v s = x -> x <> Out -> iproj f' e t v s = x.
+Lemma iproj_fuel_mono e f f' n s x :
+  f <= f' -> iproj f e n s = x -> x <> Out -> iproj f' e n s = x.
 Proof.
   induction 1 as [|f' _ IH]; [auto|]. intros Hx Hn. apply iproj_S; auto.
 Qed.
@@ -216,181 +268,204 @@ Section Termination.
   Variable e : env.
   Local Notation U := (all_keys e).
 
-  Definition term_rec (f : nat) (rec : name -> name -> st -> res (itree * st)) : Prop :=
-    forall t v s, unseen U (memo s) < f ->
-      rec t v s <> Out /\ forall tr s', rec t v s = Ok (tr, s') -> mono (memo s) (memo s').
+  Definition term_rec (f : nat) (rec : nkey -> st -> res (itree * st)) : Prop :=
+    forall k s, (fst (fst k) = true -> In (snd k) (view_names e)) -> unseen U (memo s) < f ->
+      rec k s <> Out /\ forall tr s', rec k s = Ok (tr, s') -> mono (memo s) (memo s').
 
-  Lemma nested_term rec cont f a c t u s :
-    term_rec f rec -> In (c, t, u) U -> unseen U (memo s) <= f ->
+  Lemma nested_term rec cont f a w k s :
+    term_rec f rec -> In (mkey_of w k) U -> (fst (fst k) = true -> In (snd k) (view_names e)) ->
+    unseen U (memo s) <= f ->
     (forall s2, mono (memo s) (memo s2) ->
        cont s2 <> Out /\ forall fs s3, cont s2 = Ok (fs, s3) -> mono (memo s2) (memo s3)) ->
-    ifield_nested rec cont a c t u s <> Out /\
-    forall fs s3, ifield_nested rec cont a c t u s = Ok (fs, s3) -> mono (memo s) (memo s3).
+    ifield_nested rec cont a w k s <> Out /\
+    forall fs s3, ifield_nested rec cont a w k s = Ok (fs, s3) -> mono (memo s) (memo s3).
   Proof.
-    intros Hrec Hin Hle Hc. unfold ifield_nested, iattr.
-    destruct (lookup (memo s) (c, t, u)) as [id|] eqn:L.
+    intros Hrec Hin Hgood Hle Hc. unfold ifield_nested, iattr.
+    destruct (lookup (memo s) (mkey_of w k)) as [id|] eqn:L.
     - destruct (Hc s (mono_refl _)) as [Hno Hm].
       destruct (cont s) as [[fs s3]| |] eqn:E; split; try discriminate; try congruence.
       intros fs' s3' H. inversion H; subst. eapply Hm; reflexivity.
-    - set (s1 := mkSt (S (next s)) (((c, t, u), next s) :: memo s)).
+    - set (s1 := mkSt (S (next s)) ((mkey_of w k, next s) :: memo s)).
       assert (Hlt : unseen U (memo s1) < f).
-      { pose proof (unseen_cons U (memo s) (c, t, u) (next s) Hin L) as Hc1. subst s1. cbn [memo]. eapply Nat.lt_le_trans; [exact Hc1 | exact Hle]. }
-      destruct (Hrec t u s1 Hlt) as [Hno Hm].
+      { pose proof (unseen_cons U (memo s) (mkey_of w k) (next s) Hin L) as Hc1. subst s1. cbn [memo].
+        eapply Nat.lt_le_trans; [exact Hc1 | exact Hle]. }
+      destruct (Hrec k s1 Hgood Hlt) as [Hno Hm].
       assert (M1 : mono (memo s) (memo s1)) by (apply mono_cons; exact L).
-      destruct (rec t u s1) as [[tr s2]| |] eqn:E; [|split; [discriminate|intros; discriminate]|congruence].
+      destruct (rec k s1) as [[tr s2]| |] eqn:E; [|split; [discriminate|intros; discriminate]|congruence].
       assert (M2 : mono (memo s) (memo s2)) by (eapply mono_trans; [exact M1 | eapply Hm; reflexivity]).
       destruct (Hc s2 M2) as [Hno2 Hm2].
       destruct (cont s2) as [[fs s3]| |] eqn:E2; split; try discriminate; try congruence.
       intros fs' s3' H. inversion H; subst. eapply mono_trans; [exact M2 | eapply Hm2; reflexivity].
   Qed.
 
-  Lemma ifields_term rec r f l :
-    term_rec f rec -> incl (entry_keys r l) U ->
-    forall s, unseen U (memo s) <= f ->
-      ifields rec r l s <> Out /\ forall fs s', ifields rec r l s = Ok (fs, s') -> mono (memo s) (memo s').
+  (* a list of entries of a type of the design, read under the view v *)
+  Definition entries_ok (r : rtype) (v : name) (l : list (name * option name)) : Prop :=
+    (exists n, In (n, r) e) /\ In v (view_names e) /\
+    forall a v', In (a, Some v') l -> In v' (view_names e).
+
+  Lemma target_key_in r v l a ov at_ w k :
+    entries_ok r v l -> In (a, ov) l -> find_attr r a = Some at_ -> target v ov at_ = Some (w, k) ->
+    In (mkey_of w k) U /\ (fst (fst k) = true -> In (snd k) (view_names e)).
   Proof.
-    intros Hrec. induction l as [|[a ov] l IH]; intros Hin s Hle.
+    intros ([n Hn] & Hv & Hov) Hin Fa Ht. apply find_attr_in_in in Fa. destruct Fa as [Fa _].
+    pose proof (target_name_in e n r at_ v ov w k Hn Fa Ht) as Hname.
+    assert (Hview : In (snd k) (view_names e)).
+    { unfold target in Ht.
+      assert (Hnv : In (nested_view ov at_) (view_names e)).
+      { unfold nested_view. destruct ov as [v'|]; [eapply Hov; eauto|].
+        destruct (a_meta at_) as [v'|] eqn:Hm; [eapply meta_view_in; eauto | now left]. }
+      destruct (a_ty at_); inversion Ht; subst; simpl; auto. }
+    split; [|intros _; exact Hview].
+    destruct k as [[usr t] v0]. cbn [fst snd] in Hname, Hview. unfold all_keys, mkey_of.
+    apply in_prod; [apply in_prod|]; auto.
+    destruct usr; [cbn; auto|]. destruct w; cbn; auto.
+  Qed.
+
+  Lemma ifields_term rec r v f l :
+    term_rec f rec -> entries_ok r v l ->
+    forall s, unseen U (memo s) <= f ->
+      ifields rec r v l s <> Out /\ forall fs s', ifields rec r v l s = Ok (fs, s') -> mono (memo s) (memo s').
+  Proof.
+    intros Hrec. induction l as [|[a ov] l IH]; intros Hok s Hle.
     - simpl. split; [discriminate|]. intros fs s' H. inversion H; subst. apply mono_refl.
-    - assert (Hin' : incl (entry_keys r l) U).
-      { intros k Hk. apply Hin. change ((a, ov) :: l) with ([(a, ov)] ++ l). rewrite entry_keys_app. apply in_or_app. now right. }
+    - assert (Hok' : entries_ok r v l).
+      { destruct Hok as (A & B & C). split; [exact A|]. split; [exact B|]. intros a0 v' H0. eapply C. right. exact H0. }
       assert (Hc : forall s2, mono (memo s) (memo s2) ->
-                 ifields rec r l s2 <> Out /\ forall fs s3, ifields rec r l s2 = Ok (fs, s3) -> mono (memo s2) (memo s3)).
-      { intros s2 M. apply IH; [exact Hin'|]. pose proof (unseen_mono U _ _ M). lia. }
+                 ifields rec r v l s2 <> Out /\ forall fs s3, ifields rec r v l s2 = Ok (fs, s3) -> mono (memo s2) (memo s3)).
+      { intros s2 M. apply IH; [exact Hok'|]. pose proof (unseen_mono U _ _ M). lia. }
       simpl. destruct (find_attr r a) as [at_|] eqn:Fa; [|apply (Hc s (mono_refl _))].
-      destruct (a_ty at_) as [p|t'|t'] eqn:Ty.
+      destruct (target v ov at_) as [[w k]|] eqn:Ht.
+      + destruct (target_key_in r v ((a, ov) :: l) a ov at_ w k Hok (or_introl eq_refl) Fa Ht) as [Hin Hgood].
+        apply nested_term with (f := f); auto.
       + unfold ifield_leaf. destruct (Hc s (mono_refl _)) as [Hno Hm].
-        destruct (ifields rec r l s) as [[fs s3]| |] eqn:E; split; try discriminate; try congruence.
+        destruct (ifields rec r v l s) as [[fs s3]| |] eqn:E; split; try discriminate; try congruence.
         intros fs' s3' H. inversion H; subst. eapply Hm; reflexivity.
-      + apply nested_term with (f := f); auto. apply Hin. simpl. rewrite Fa, Ty. now left.
-      + apply nested_term with (f := f); auto. apply Hin. simpl. rewrite Fa, Ty. now left.
+  Qed.
+
+  Lemma entries_entries_ok k r l :
+    entries e k = Some (r, l) -> (fst (fst k) = true -> In (snd k) (view_names e)) -> entries_ok r (snd k) l.
+  Proof.
+    intros He Hgood. destruct (entries_inv _ _ _ _ He) as [Ft [[Hu ->]|[Hu (w & Fv & ->)]]].
+    - destruct (find_type_in _ _ _ Ft) as [n Hn]. split; [eauto|]. split; [auto|].
+      intros a v' Hin. apply in_map_iff in Hin. destruct Hin as (x & Hx & _). discriminate.
+    - destruct (find_type_in _ _ _ Ft) as [n Hn]. apply find_view_in_in in Fv. destruct Fv as [Hw Hname].
+      split; [eauto|]. split; [rewrite <- Hname; eapply view_name_in; eauto|].
+      intros a v' Hin. eapply override_in; eauto.
   Qed.
 
   Lemma iproj_term f : term_rec f (iproj f e).
   Proof.
-    induction f as [|f IH]; intros t v s Hlt; [lia|].
-    simpl. destruct (find_type e t) as [r|] eqn:Ft; [|split; [discriminate|intros; discriminate]].
-    destruct (find_view r v) as [w|] eqn:Fv; [|split; [discriminate|intros; discriminate]].
-    assert (Hin : incl (entry_keys r (v_attrs w)) U).
-    { apply all_keys_in with (t := t); [exact Ft|]. apply find_view_in_in in Fv. tauto. }
-    destruct (ifields_term (iproj f e) r f (v_attrs w) IH Hin s) as [Hno Hm]; [lia|].
-    destruct (ifields (iproj f e) r (v_attrs w) s) as [[fs s']| |] eqn:E; split; try discriminate; try congruence.
+    induction f as [|f IH]; intros k s Hgood Hlt; [lia|].
+    rewrite iproj_unfold. destruct (entries e k) as [[r l]|] eqn:He; [|split; [discriminate|intros; discriminate]].
+    destruct (ifields_term (iproj f e) r (snd k) f l IH (entries_entries_ok k r l He Hgood) s) as [Hno Hm]; [lia|].
+    destruct (ifields (iproj f e) r (snd k) l s) as [[fs s']| |] eqn:E; split; try discriminate; try congruence.
     intros tr s'' H. inversion H; subst. eapply Hm; reflexivity.
   Qed.
-
-  Lemma unseen_le_all m : unseen U m <= List.length U.
-  Proof. unfold unseen. generalize (all_keys e). intros l. induction l as [|x l IH]; simpl; [lia|]. destruct (negb (is_seen m x)); simpl; lia. Qed.
 
   Lemma iproject_not_out f t v : fuel_bound e <= f -> iproject f e t v <> Out.
   Proof.
     intros Hf. unfold iproject.
-    destruct (iproj_term f t v init) as [Hno _].
-    { pose proof (unseen_le_all (memo init)). unfold fuel_bound in Hf. lia. }
-    destruct (iproj f e t v init) as [[tr s]| |]; congruence.
+    destruct (iproj_term f (false, t, v) init) as [Hno _].
+    { simpl. discriminate. }
+    { pose proof (unseen_le_all U (memo init)). unfold fuel_bound in Hf. lia. }
+    destruct (iproj f e (false, t, v) init) as [[tr s]| |]; congruence.
   Qed.
 End Termination.
 
 (* ------------------------------------------- closed designs never fail to project *)
 
-Lemma closed_entries e t r w :
-  closed e = true -> find_type e t = Some r -> In w (r_views r) ->
-  forall en, In en (v_attrs w) -> closed_entry e r en = true.
+Lemma closed_entry_view e r v v' en : closed_entry e r v en = closed_entry e r v' en.
 Proof.
-  intros Hc Ht Hw en Hen. destruct (find_type_in _ _ _ Ht) as [n Hn].
-  unfold closed in Hc. rewrite forallb_forall in Hc. specialize (Hc _ Hn). simpl in Hc.
-  rewrite forallb_forall in Hc. specialize (Hc _ Hw). rewrite forallb_forall in Hc. now apply Hc.
+  unfold closed_entry. destruct (find_attr r (fst en)) as [at_|]; [|reflexivity].
+  unfold target. destruct (a_ty at_); reflexivity.
 Qed.
 
-Definition noerr_rec (e : env) (rec : name -> name -> st -> res (itree * st)) : Prop :=
-  forall t v s, has_view e t v = true -> rec t v s <> Err.
+Lemma closed_entries e k r l :
+  closed e = true -> entries e k = Some (r, l) ->
+  forall en, In en l -> closed_entry e r (snd k) en = true.
+Proof.
+  intros Hc He en Hen. destruct (entries_inv _ _ _ _ He) as [Ft Hcase].
+  destruct (find_type_in _ _ _ Ft) as [n Hn].
+  unfold closed in Hc. rewrite forallb_forall in Hc. specialize (Hc _ Hn). simpl in Hc.
+  unfold closed_type in Hc. apply andb_true_iff in Hc. destruct Hc as [Hc _].
+  apply andb_true_iff in Hc. destruct Hc as [Hv Ha].
+  destruct Hcase as [[_ ->]|[_ (w & Fv & ->)]].
+  - apply in_map_iff in Hen. destruct Hen as (x & <- & Hx).
+    rewrite forallb_forall in Ha. rewrite (closed_entry_view e r (snd k) "default"). now apply Ha.
+  - apply find_view_in_in in Fv. destruct Fv as [Hw Hname].
+    rewrite forallb_forall in Hv. specialize (Hv _ Hw). rewrite forallb_forall in Hv.
+    rewrite <- Hname. now apply Hv.
+Qed.
 
-Lemma ifields_noerr e rec r l :
-  noerr_rec e rec -> (forall en, In en l -> closed_entry e r en = true) ->
-  forall s, ifields rec r l s <> Err.
+Definition noerr_rec (e : env) (rec : nkey -> st -> res (itree * st)) : Prop :=
+  forall k s, has_node e k = true -> rec k s <> Err.
+
+Lemma ifields_noerr e rec r v l :
+  noerr_rec e rec -> (forall en, In en l -> closed_entry e r v en = true) ->
+  forall s, ifields rec r v l s <> Err.
 Proof.
   intros Hrec. induction l as [|[a ov] l IH]; intros Hcl s; simpl; [discriminate|].
-  assert (IH' : forall s, ifields rec r l s <> Err) by (apply IH; intros en Hen; apply Hcl; now right).
+  assert (IH' : forall s, ifields rec r v l s <> Err) by (apply IH; intros en Hen; apply Hcl; now right).
   pose proof (Hcl (a, ov) (or_introl eq_refl)) as Hce. unfold closed_entry in Hce. simpl in Hce.
   destruct (find_attr r a) as [at_|]; [|apply IH'].
-  assert (N : forall c t', has_view e t' (nested_view ov at_) = true ->
-              ifield_nested rec (ifields rec r l) a c t' (nested_view ov at_) s <> Err).
-  { intros c t' Hv. unfold ifield_nested, iattr.
-    destruct (lookup (memo s) (c, t', nested_view ov at_)).
-    - specialize (IH' s). destruct (ifields rec r l s) as [[fs s3]| |]; congruence.
-    - pose proof (Hrec t' (nested_view ov at_) (mkSt (S (next s)) (((c, t', nested_view ov at_), next s) :: memo s)) Hv) as Hn.
-      destruct (rec t' (nested_view ov at_) _) as [[tr s2]| |]; try congruence.
-      specialize (IH' s2). destruct (ifields rec r l s2) as [[fs s3]| |]; congruence. }
-  destruct (a_ty at_) as [p|t'|t'].
-  - unfold ifield_leaf. specialize (IH' s). destruct (ifields rec r l s) as [[fs s3]| |]; congruence.
-  - apply N, Hce.
-  - apply N, Hce.
+  destruct (target v ov at_) as [[w k]|].
+  - unfold ifield_nested, iattr. destruct (lookup (memo s) (mkey_of w k)).
+    + specialize (IH' s). destruct (ifields rec r v l s) as [[fs s3]| |]; congruence.
+    + pose proof (Hrec k (mkSt (S (next s)) ((mkey_of w k, next s) :: memo s)) Hce) as Hn.
+      destruct (rec k _) as [[tr s2]| |]; try congruence.
+      specialize (IH' s2). destruct (ifields rec r v l s2) as [[fs s3]| |]; congruence.
+  - unfold ifield_leaf. specialize (IH' s). destruct (ifields rec r v l s) as [[fs s3]| |]; congruence.
 Qed.
 
 Lemma iproj_noerr e f : closed e = true -> noerr_rec e (iproj f e).
 Proof.
-  intros Hc. induction f as [|f IH]; intros t v s Hv; simpl; [discriminate|].
-  unfold has_view in Hv. destruct (find_type e t) as [r|] eqn:Ft; [|discriminate].
-  destruct (find_view r v) as [w|] eqn:Fv; [|discriminate].
-  assert (Hw : In w (r_views r)) by (apply find_view_in_in in Fv; tauto).
-  pose proof (ifields_noerr e (iproj f e) r (v_attrs w) IH (closed_entries e t r w Hc Ft Hw) s) as Hn.
-  destruct (ifields (iproj f e) r (v_attrs w) s) as [[fs s']| |]; congruence.
+  intros Hc. induction f as [|f IH]; intros k s Hv; [simpl; discriminate|]. rewrite iproj_unfold.
+  unfold has_node in Hv. destruct (entries e k) as [[r l]|] eqn:He; [|discriminate].
+  pose proof (ifields_noerr e (iproj f e) r (snd k) l IH (closed_entries e k r l Hc He) s) as Hn.
+  destruct (ifields (iproj f e) r (snd k) l s) as [[fs s']| |]; congruence.
 Qed.
 
 Lemma iproject_total e t v :
   closed e = true -> has_view e t v = true -> exists tr, iproject (fuel_bound e) e t v = Ok tr.
 Proof.
   intros Hc Hv. pose proof (iproject_not_out e (fuel_bound e) t v (le_n _)) as Hno.
-  unfold iproject in *. pose proof (iproj_noerr e (fuel_bound e) Hc t v init Hv) as Hne.
-  destruct (iproj (fuel_bound e) e t v init) as [[tr s]| |]; [eauto|congruence|congruence].
+  unfold iproject in *. pose proof (iproj_noerr e (fuel_bound e) Hc (false, t, v) init Hv) as Hne.
+  destruct (iproj (fuel_bound e) e (false, t, v) init) as [[tr s]| |]; [eauto|congruence|congruence].
 Qed.
 
 (* --------------------------------------- what expr.Project builds is the projection *)
 
-Definition root_key (tr : itree) : name * name := match tr with IObj t v _ _ => (t, v) end.
+Definition root_key (tr : itree) : nkey := match tr with INode k _ _ => k end.
 
 Section Correct.
   Variable e : env.
 
-  (* every node lists exactly the attributes of its view; every nested attribute is
-     registered in the memo G under (type, own view) and, when defined here, holds the
-     node of that type and view *)
-  Inductive node_ok (G : list (key * nat)) : itree -> Prop :=
-  | NOk t v fs req r w :
-      find_type e t = Some r -> find_view r v = Some w -> req = req_in_view r w ->
-      flds_ok G r (v_attrs w) fs -> node_ok G (IObj t v fs req)
-  with flds_ok (G : list (key * nat)) : rtype -> list (name * option name) -> iflds -> Prop :=
-  | FOnil r : flds_ok G r [] FNil
-  | FOskip r a ov l fs :
-      find_attr r a = None -> flds_ok G r l fs -> flds_ok G r ((a, ov) :: l) fs
-  | FOleaf r a ov l fs at_ p :
-      find_attr r a = Some at_ -> a_ty at_ = TLeaf p -> flds_ok G r l fs ->
-      flds_ok G r ((a, ov) :: l) (FLeafC a fs)
-  | FOdef r a ov l fs at_ c t' id tr :
-      find_attr r a = Some at_ -> rt_of (a_ty at_) = Some (c, t') ->
-      lookup G (c, t', nested_view ov at_) = Some id ->
-      root_key tr = (t', nested_view ov at_) -> node_ok G tr -> flds_ok G r l fs ->
-      flds_ok G r ((a, ov) :: l) (FDefC a id c tr fs)
-  | FOref r a ov l fs at_ c t' id :
-      find_attr r a = Some at_ -> rt_of (a_ty at_) = Some (c, t') ->
-      lookup G (c, t', nested_view ov at_) = Some id -> flds_ok G r l fs ->
-      flds_ok G r ((a, ov) :: l) (FRefC a id fs).
+  (* every node lists exactly the entries of its view; every attribute that points to a node
+     is registered in the memo G under (kind, type, own view) and, when defined here, holds
+     the node of that type and view *)
+  Inductive node_ok (G : list (mkey * nat)) : itree -> Prop :=
+  | NOk k fs req r l :
+      entries e k = Some (r, l) -> req = req_in (fst (fst k)) r l ->
+      flds_ok G r (snd k) l fs -> node_ok G (INode k fs req)
+  with flds_ok (G : list (mkey * nat)) : rtype -> name -> list (name * option name) -> iflds -> Prop :=
+  | FOnil r v : flds_ok G r v [] FNil
+  | FOskip r v a ov l fs :
+      find_attr r a = None -> flds_ok G r v l fs -> flds_ok G r v ((a, ov) :: l) fs
+  | FOleaf r v a ov l fs at_ :
+      find_attr r a = Some at_ -> target v ov at_ = None -> flds_ok G r v l fs ->
+      flds_ok G r v ((a, ov) :: l) (FLeafC a fs)
+  | FOdef r v a ov l fs at_ w k id tr :
+      find_attr r a = Some at_ -> target v ov at_ = Some (w, k) ->
+      lookup G (mkey_of w k) = Some id -> root_key tr = k -> node_ok G tr -> flds_ok G r v l fs ->
+      flds_ok G r v ((a, ov) :: l) (FDefC a id w tr fs)
+  | FOref r v a ov l fs at_ w k id :
+      find_attr r a = Some at_ -> target v ov at_ = Some (w, k) ->
+      lookup G (mkey_of w k) = Some id -> flds_ok G r v l fs ->
+      flds_ok G r v ((a, ov) :: l) (FRefC a id w fs).
 
   Scheme node_ok_min := Minimality for node_ok Sort Prop
     with flds_ok_min := Minimality for flds_ok Sort Prop.
   Combined Scheme node_flds_ok_ind from node_ok_min, flds_ok_min.
-
-  Lemma ok_mono G G' :
-    mono G G' ->
-    (forall tr, node_ok G tr -> node_ok G' tr) /\
-    (forall r l fs, flds_ok G r l fs -> flds_ok G' r l fs).
-  Proof.
-    intros M. apply node_flds_ok_ind; intros.
-    - econstructor; eauto.
-    - constructor.
-    - apply FOskip; auto.
-    - eapply FOleaf; eauto.
-    - eapply FOdef; eauto.
-    - eapply FOref; eauto.
-  Qed.
 
   Definition wf (s : st) : Prop :=
     (forall k id, lookup (memo s) k = Some id -> id < next s) /\
@@ -402,54 +477,53 @@ Section Correct.
   Lemma wf_push s k : wf s -> lookup (memo s) k = None -> wf (mkSt (S (next s)) ((k, next s) :: memo s)).
   Proof.
     intros [Hlt Hinj] Hn. split; simpl.
-    - intros k' id. destruct (key_eqb k k'); intros H; [inversion H; lia|]. specialize (Hlt _ _ H). lia.
-    - intros k1 k2 id. destruct (key_eqb k k1) eqn:E1, (key_eqb k k2) eqn:E2; intros H1 H2.
-      + apply key_eqb_eq in E1, E2. congruence.
+    - intros k' id. destruct (mkey_eqb k k'); intros H; [inversion H; lia|]. specialize (Hlt _ _ H). lia.
+    - intros k1 k2 id. destruct (mkey_eqb k k1) eqn:E1, (mkey_eqb k k2) eqn:E2; intros H1 H2.
+      + apply mkey_eqb_eq in E1, E2. congruence.
       + inversion H1; subst. specialize (Hlt _ _ H2). lia.
       + inversion H2; subst. specialize (Hlt _ _ H1). lia.
       + eapply Hinj; eauto.
   Qed.
 
-  Definition post (t v : name) (s : st) (tr : itree) (s' : st) : Prop :=
-    wf s' /\ mono (memo s) (memo s') /\ next s <= next s' /\ root_key tr = (t, v) /\
+  Definition post (k : nkey) (s : st) (tr : itree) (s' : st) : Prop :=
+    wf s' /\ mono (memo s) (memo s') /\ next s <= next s' /\ root_key tr = k /\
     (forall G, mono (memo s') G -> node_ok G tr) /\
     (forall id, next s <= id < next s' -> find_def id tr <> None).
 
-  Definition postf (r : rtype) (l : list (name * option name)) (s : st) (fs : iflds) (s' : st) : Prop :=
+  Definition postf (r : rtype) (v : name) (l : list (name * option name)) (s : st) (fs : iflds) (s' : st) : Prop :=
     wf s' /\ mono (memo s) (memo s') /\ next s <= next s' /\
-    (forall G, mono (memo s') G -> flds_ok G r l fs) /\
+    (forall G, mono (memo s') G -> flds_ok G r v l fs) /\
     (forall id, next s <= id < next s' -> find_def_f id fs <> None).
 
-  Definition good_rec (rec : name -> name -> st -> res (itree * st)) : Prop :=
-    forall t v s tr s', wf s -> rec t v s = Ok (tr, s') -> post t v s tr s'.
+  Definition good_rec (rec : nkey -> st -> res (itree * st)) : Prop :=
+    forall k s tr s', wf s -> rec k s = Ok (tr, s') -> post k s tr s'.
 
-  Lemma nested_good rec cont r a ov l at_ c t' s fs s3 :
+  Lemma nested_good rec cont r v a ov l at_ w k s fs s3 :
     good_rec rec ->
-    (forall s2 fs' s3, wf s2 -> cont s2 = Ok (fs', s3) -> postf r l s2 fs' s3) ->
-    find_attr r a = Some at_ -> rt_of (a_ty at_) = Some (c, t') ->
-    wf s -> ifield_nested rec cont a c t' (nested_view ov at_) s = Ok (fs, s3) ->
-    postf r ((a, ov) :: l) s fs s3.
+    (forall s2 fs' s3, wf s2 -> cont s2 = Ok (fs', s3) -> postf r v l s2 fs' s3) ->
+    find_attr r a = Some at_ -> target v ov at_ = Some (w, k) ->
+    wf s -> ifield_nested rec cont a w k s = Ok (fs, s3) ->
+    postf r v ((a, ov) :: l) s fs s3.
   Proof.
     intros Hrec Hcont Fa Rt Hwf. unfold ifield_nested, iattr.
-    set (u := nested_view ov at_).
-    destruct (lookup (memo s) (c, t', u)) as [id|] eqn:L.
+    destruct (lookup (memo s) (mkey_of w k)) as [id|] eqn:L.
     - destruct (cont s) as [[fs' s3']| |] eqn:E; try discriminate. intros H; inversion H; subst.
       destruct (Hcont _ _ _ Hwf E) as (W & M & N & F & D).
       refine (conj W (conj M (conj N (conj _ _)))).
       + intros G MG. eapply FOref; [exact Fa | exact Rt | apply MG, M, L | apply F, MG].
       + intros id' Hid. simpl. apply D, Hid.
-    - set (s1 := mkSt (S (next s)) (((c, t', u), next s) :: memo s)).
-      destruct (rec t' u s1) as [[tr s2]| |] eqn:E; try discriminate.
+    - set (s1 := mkSt (S (next s)) ((mkey_of w k, next s) :: memo s)).
+      destruct (rec k s1) as [[tr s2]| |] eqn:E; try discriminate.
       assert (W1 : wf s1) by (apply wf_push; assumption).
-      destruct (Hrec _ _ _ _ _ W1 E) as (W2 & M12 & N12 & RK & NOK & D12).
+      destruct (Hrec _ _ _ _ W1 E) as (W2 & M12 & N12 & RK & NOK & D12).
       destruct (cont s2) as [[fs' s3']| |] eqn:E2; try discriminate. intros H; inversion H; subst.
       destruct (Hcont _ _ _ W2 E2) as (W3 & M23 & N23 & F & D23).
       assert (M01 : mono (memo s) (memo s1)) by (apply mono_cons; exact L).
       refine (conj W3 (conj _ (conj _ (conj _ _)))).
       + eapply mono_trans; [exact M01|]. eapply mono_trans; eauto.
       + simpl in N12. lia.
-      + intros G MG. eapply FOdef; [exact Fa | exact Rt | | exact RK | | apply F, MG].
-        * apply MG, M23, M12. subst s1. cbn [memo lookup]. now rewrite key_eqb_refl.
+      + intros G MG. eapply FOdef; [exact Fa | exact Rt | | reflexivity | | apply F, MG].
+        * apply MG, M23, M12. subst s1. cbn [memo lookup]. now rewrite mkey_eqb_refl.
         * apply NOK. eapply mono_trans; eauto.
       + intros id Hid. simpl. destruct (Nat.eqb (next s) id) eqn:Eq; [discriminate|].
         apply Nat.eqb_neq in Eq. simpl in N12.
@@ -460,8 +534,8 @@ Section Correct.
           destruct (find_def id tr); [discriminate|exact Hd].
   Qed.
 
-  Lemma ifields_good rec r l :
-    good_rec rec -> forall s fs s', wf s -> ifields rec r l s = Ok (fs, s') -> postf r l s fs s'.
+  Lemma ifields_good rec r v l :
+    good_rec rec -> forall s fs s', wf s -> ifields rec r v l s = Ok (fs, s') -> postf r v l s fs s'.
   Proof.
     intros Hrec. induction l as [|[a ov] l IH]; intros s fs s' Hwf; simpl.
     - intros H; inversion H; subst. refine (conj Hwf (conj (mono_refl _) (conj (le_n _) (conj _ _)))).
@@ -470,77 +544,73 @@ Section Correct.
     - destruct (find_attr r a) as [at_|] eqn:Fa.
       2:{ intros H. destruct (IH _ _ _ Hwf H) as (W & M & N & F & D).
           refine (conj W (conj M (conj N (conj _ D)))). intros G MG. apply FOskip; auto. }
-      destruct (a_ty at_) as [p|t'|t'] eqn:Ty.
-      + unfold ifield_leaf. destruct (ifields rec r l s) as [[fs' s3]| |] eqn:E; try discriminate.
+      destruct (target v ov at_) as [[w k]|] eqn:Ty.
+      + apply nested_good with (at_ := at_); auto.
+      + unfold ifield_leaf. destruct (ifields rec r v l s) as [[fs' s3]| |] eqn:E; try discriminate.
         intros H; inversion H; subst. destruct (IH _ _ _ Hwf E) as (W & M & N & F & D).
         refine (conj W (conj M (conj N (conj _ _)))).
         * intros G MG. eapply FOleaf; eauto.
         * intros id Hid. simpl. apply D, Hid.
-      + apply nested_good with (at_ := at_); auto. now rewrite Ty.
-      + apply nested_good with (at_ := at_); auto. now rewrite Ty.
   Qed.
 
   Lemma iproj_good f : good_rec (iproj f e).
   Proof.
-    induction f as [|f IH]; intros t v s tr s' Hwf; simpl; [discriminate|].
-    destruct (find_type e t) as [r|] eqn:Ft; [|discriminate].
-    destruct (find_view r v) as [w|] eqn:Fv; [|discriminate].
-    destruct (ifields (iproj f e) r (v_attrs w) s) as [[fs s2]| |] eqn:E; try discriminate.
+    induction f as [|f IH]; intros k s tr s' Hwf; [simpl; discriminate|]. rewrite iproj_unfold.
+    destruct (entries e k) as [[r l]|] eqn:He; [|discriminate].
+    destruct (ifields (iproj f e) r (snd k) l s) as [[fs s2]| |] eqn:E; try discriminate.
     intros H; inversion H; subst.
-    destruct (ifields_good _ _ _ IH _ _ _ Hwf E) as (W & M & N & F & D).
+    destruct (ifields_good _ _ _ _ IH _ _ _ Hwf E) as (W & M & N & F & D).
     refine (conj W (conj M (conj N (conj eq_refl (conj _ D))))).
     intros G MG. econstructor; eauto.
   Qed.
 
   (* an attribute found in the graph holds the node of the key it is registered under *)
   Lemma find_def_sound G :
-    (forall tr, node_ok G tr -> forall id c tr0, find_def id tr = Some (c, tr0) ->
-       node_ok G tr0 /\ lookup G (c, fst (root_key tr0), snd (root_key tr0)) = Some id) /\
-    (forall r l fs, flds_ok G r l fs -> forall id c tr0, find_def_f id fs = Some (c, tr0) ->
-       node_ok G tr0 /\ lookup G (c, fst (root_key tr0), snd (root_key tr0)) = Some id).
+    (forall tr, node_ok G tr -> forall id tr0, find_def id tr = Some tr0 ->
+       node_ok G tr0 /\ exists w, lookup G (mkey_of w (root_key tr0)) = Some id) /\
+    (forall r v l fs, flds_ok G r v l fs -> forall id tr0, find_def_f id fs = Some tr0 ->
+       node_ok G tr0 /\ exists w, lookup G (mkey_of w (root_key tr0)) = Some id).
   Proof.
     apply node_flds_ok_ind.
-    - intros t v fs req r w _ _ _ _ IH id c tr0 H. simpl in H. eauto.
-    - intros r id c tr0 H. discriminate.
-    - intros r a ov l fs _ _ IH id c tr0 H. eauto.
-    - intros r a ov l fs at_ p _ _ _ IH id c tr0 H. simpl in H. eauto.
-    - intros r a ov l fs at_ c t' id tr _ _ L RK NOK IHtr _ IHfs id' c' tr0 H. simpl in H.
+    - intros k fs req r l _ _ _ IH id tr0 H. simpl in H. eauto.
+    - intros r v id tr0 H. discriminate.
+    - intros r v a ov l fs _ _ IH id tr0 H. eauto.
+    - intros r v a ov l fs at_ _ _ _ IH id tr0 H. simpl in H. eauto.
+    - intros r v a ov l fs at_ w k id tr _ _ L RK NOK IHtr _ IHfs id' tr0 H. simpl in H.
       destruct (Nat.eqb id id') eqn:Eq.
-      + inversion H; subst. apply Nat.eqb_eq in Eq; subst. split; [exact NOK|]. now rewrite RK.
+      + inversion H; subst. apply Nat.eqb_eq in Eq; subst. split; [exact NOK|]. eauto.
       + destruct (find_def id' tr) as [x|] eqn:Fd.
         * inversion H; subst. eapply IHtr; eauto.
         * eapply IHfs; eauto.
-    - intros r a ov l fs at_ c t' id _ _ _ _ IH id' c' tr0 H. simpl in H. eauto.
+    - intros r v a ov l fs at_ w k id _ _ _ _ IH id' tr0 H. simpl in H. eauto.
   Qed.
 
   Lemma unfold_correct G root :
     node_ok G root ->
     (forall k1 k2 id, lookup G k1 = Some id -> lookup G k2 = Some id -> k1 = k2) ->
     (forall k id, lookup G k = Some id -> find_def id root <> None) ->
-    forall n tr, node_ok G tr -> unfold n root tr = sproject n e (fst (root_key tr)) (snd (root_key tr)).
+    forall n tr, node_ok G tr -> unfold n root tr = sproject n e (root_key tr).
   Proof.
     intros Hroot Hinj Hdef. induction n as [|n IHn]; intros tr Hok; [reflexivity|].
-    destruct Hok as [t v fs req r w Ft Fv Hreq Hfs]. simpl. rewrite Ft, Fv, Hreq. f_equal.
-    clear Ft Fv Hreq. induction Hfs.
+    destruct Hok as [k fs req r l He Hreq Hfs]. cbn [unfold sproject root_key]. rewrite He, Hreq. f_equal.
+    clear He Hreq. induction Hfs.
     - reflexivity.
     - simpl. rewrite H. exact IHHfs.
-    - simpl. rewrite H, H0. now rewrite IHHfs.
-    - simpl. rewrite H, IHHfs. rewrite (IHn tr H3), H2. simpl.
-      destruct (a_ty at_) as [p|t1|t1]; simpl in H0; inversion H0; subst; reflexivity.
-    - simpl. rewrite H, IHHfs.
-      destruct (find_def id root) as [[c0 tr0]|] eqn:Fd; [|exfalso; eapply Hdef; eauto].
-      destruct (proj1 (find_def_sound G) _ Hroot _ _ _ Fd) as [Hok0 L0].
-      assert (Hk : (c0, fst (root_key tr0), snd (root_key tr0)) = (c, t', nested_view ov at_)) by (eapply Hinj; eauto).
-      inversion Hk; subst. rewrite (IHn tr0 Hok0).
-      destruct (a_ty at_) as [p|t1|t1]; simpl in H0; inversion H0; subst; simpl; congruence.
+    - simpl. rewrite H. unfold child. rewrite H0. now rewrite IHHfs.
+    - simpl. rewrite H, IHHfs. unfold child. rewrite H0. rewrite (IHn tr H3), H2. reflexivity.
+    - simpl. rewrite H, IHHfs. unfold child. rewrite H0.
+      destruct (find_def id root) as [tr0|] eqn:Fd; [|exfalso; eapply Hdef; eauto].
+      destruct (proj1 (find_def_sound G) _ Hroot _ _ Fd) as [Hok0 [w0 L0]].
+      assert (Hk : root_key tr0 = k0) by (eapply mkey_of_nkey; eapply Hinj; eauto).
+      rewrite (IHn tr0 Hok0), Hk. reflexivity.
   Qed.
 
   Theorem iproject_exact f t v tr :
-    iproject f e t v = Ok tr -> forall n, unfold n tr tr = sproject n e t v.
+    iproject f e t v = Ok tr -> forall n, unfold n tr tr = sproject n e (false, t, v).
   Proof.
-    unfold iproject. destruct (iproj f e t v init) as [[tr' s']| |] eqn:E; try discriminate.
+    unfold iproject. destruct (iproj f e (false, t, v) init) as [[tr' s']| |] eqn:E; try discriminate.
     intros H; inversion H; subst. intros n.
-    destruct (iproj_good f _ _ _ _ _ wf_init E) as (W & M & N & RK & NOK & D).
+    destruct (iproj_good f _ _ _ _ wf_init E) as (W & M & N & RK & NOK & D).
     pose proof (NOK (memo s') (mono_refl _)) as Hroot.
     rewrite (unfold_correct (memo s') tr Hroot (proj2 W)).
     - now rewrite RK.
@@ -551,27 +621,25 @@ End Correct.
 
 (* ----------------------------------------- the projection, attribute by attribute *)
 
-Lemma sfields_names rec r l : pnames (sfields rec r l) = filter (has_attr r) (map fst l).
+Lemma sfields_names rec r v l : pnames (sfields rec r v l) = filter (has_attr r) (map fst l).
 Proof.
   induction l as [|[a ov] l IH]; simpl; [reflexivity|]. unfold has_attr at 1.
-  destruct (find_attr r a) as [at_|]; [|exact IH].
-  destruct (a_ty at_); simpl; now rewrite IH.
+  destruct (find_attr r a) as [at_|]; [|exact IH]. simpl. now rewrite IH.
 Qed.
 
-Lemma sfields_child rec r l a :
-  pfind (sfields rec r l) a =
+Lemma sfields_child rec r v l a :
+  pfind (sfields rec r v l) a =
   match view_entry l a, find_attr r a with
-  | Some ov, Some at_ => Some (child rec at_ ov)
+  | Some ov, Some at_ => Some (child rec v at_ ov)
   | _, _ => None
   end.
 Proof.
   induction l as [|[b ov] l IH]; simpl; [reflexivity|].
   destruct (String.eqb b a) eqn:E.
   - apply String.eqb_eq in E; subst b. destruct (find_attr r a) as [at_|] eqn:Fa.
-    + unfold child. destruct (a_ty at_); simpl; now rewrite String.eqb_refl.
+    + simpl. now rewrite String.eqb_refl.
     + rewrite IH. rewrite ?Fa. now destruct (view_entry l a).
-  - destruct (find_attr r b) as [bt|]; [|exact IH].
-    destruct (a_ty bt); simpl; rewrite E; exact IH.
+  - destruct (find_attr r b) as [bt|]; [|exact IH]. simpl. rewrite E. exact IH.
 Qed.
 
 (* ------------------------------------------------------------- values at run time *)
@@ -580,13 +648,13 @@ Lemma vflds_simple_ind (P : vflds -> Prop) :
   P VFNil -> (forall a x r, P r -> P (VFCons a x r)) -> forall fs, P fs.
 Proof. intros H0 H1. fix IH 1. intros [|a x r]; [exact H0 | apply H1, IH]. Qed.
 
-Lemma has_field_restrict e r w fs a :
-  has_field (restrict_f e r w fs) a = has_field fs a && in_view w a && has_attr r a.
+Lemma has_field_restrict e r v l fs a :
+  has_field (restrict_f e r v l fs) a = has_field fs a && listed l a && has_attr r a.
 Proof.
   induction fs as [|b x rest IH] using vflds_simple_ind; simpl.
   - reflexivity.
-  - unfold in_view, has_attr in *.
-    destruct (view_entry (v_attrs w) b) as [ov|] eqn:Vb.
+  - unfold listed, has_attr in *.
+    destruct (view_entry l b) as [ov|] eqn:Vb.
     + destruct (find_attr r b) as [bt|] eqn:Fb.
       * simpl. rewrite IH. destruct (String.eqb b a) eqn:E; simpl; [|reflexivity].
         apply String.eqb_eq in E; subst. now rewrite Vb, Fb.
@@ -598,130 +666,321 @@ Proof.
       destruct (has_field rest a); simpl; now rewrite ?andb_false_r.
 Qed.
 
-Lemma keys_restrict e r w fs :
-  keys (restrict_f e r w fs) = filter (fun a => in_view w a && has_attr r a) (keys fs).
+Lemma keys_restrict e r v l fs :
+  keys (restrict_f e r v l fs) = filter (fun a => listed l a && has_attr r a) (keys fs).
 Proof.
   induction fs as [|b x rest IH] using vflds_simple_ind; simpl.
   - reflexivity.
-  - unfold in_view, has_attr in *.
-    destruct (view_entry (v_attrs w) b) as [ov|]; [|exact IH].
+  - unfold listed, has_attr in *.
+    destruct (view_entry l b) as [ov|]; [|exact IH].
     destruct (find_attr r b) as [bt|]; simpl; [now rewrite IH | exact IH].
 Qed.
+
+Lemma listed_all (l : list attr) a :
+  In a l -> listed (map (fun a => (a_name a, None)) l) (a_name a) = true.
+Proof.
+  unfold listed. induction l as [|b l IH]; simpl; [tauto|].
+  destruct (String.eqb (a_name b) (a_name a)) eqn:E; [reflexivity|].
+  intros [->|H]; [now rewrite String.eqb_refl in E | auto].
+Qed.
+
+Lemma find_attr_has r a : In a (r_attrs r) -> has_attr r (a_name a) = true.
+Proof.
+  unfold has_attr, find_attr. induction (r_attrs r) as [|b l IH]; simpl; [tauto|].
+  destruct (String.eqb (a_name b) (a_name a)) eqn:E; [reflexivity|].
+  intros [->|H]; [now rewrite String.eqb_refl in E | auto].
+Qed.
+
+(* what one attribute points to, for the four readers of the model *)
+Lemma target_shapes v ov at_ :
+  match a_ty at_ with
+  | TLeaf _ => target v ov at_ = None /\ gtarget at_ = None /\ direct (a_ty at_) = None
+  | _ => exists w k, target v ov at_ = Some (w, k) /\
+                     exists gv, gtarget at_ = Some (fst (fst k), snd (fst k), gv)
+  end.
+Proof. unfold target, gtarget. destruct (a_ty at_); simpl; eauto 8. Qed.
 
 Section Runtime.
   Variable e : env.
   Hypothesis Hclosed : closed e = true.
 
-  Lemma nested_has_view t r w a ov at_ c t' :
-    find_type e t = Some r -> In w (r_views r) ->
-    view_entry (v_attrs w) a = Some ov -> find_attr r a = Some at_ -> rt_of (a_ty at_) = Some (c, t') ->
-    has_view e t' (nested_view ov at_) = true.
+  Lemma child_node r v l a ov at_ w k :
+    (forall en, In en l -> closed_entry e r v en = true) ->
+    view_entry l a = Some ov -> find_attr r a = Some at_ -> target v ov at_ = Some (w, k) ->
+    has_node e k = true.
   Proof.
-    intros Ft Hw Ve Fa Rt.
-    assert (Hin : In (a, ov) (v_attrs w)).
-    { clear -Ve. induction (v_attrs w) as [|[b o] l IH]; simpl in *; [discriminate|].
-      destruct (String.eqb b a) eqn:E; [apply String.eqb_eq in E; inversion Ve; subst; now left | right; auto]. }
-    pose proof (closed_entries e t r w Hclosed Ft Hw _ Hin) as Hc. unfold closed_entry in Hc. simpl in Hc.
-    rewrite Fa in Hc. destruct (a_ty at_); simpl in Rt; inversion Rt; subst; exact Hc.
+    intros Hl Ve Fa Ht. pose proof (Hl _ (view_entry_in _ _ _ Ve)) as Hc.
+    unfold closed_entry in Hc. simpl in Hc. now rewrite Fa, Ht in Hc.
   Qed.
 
-  (* the three statements are proved together over values, field lists and element lists;
-     for field lists the enclosing type and view are given *)
-  Definition okv (P : name -> name -> val -> Prop) (x : val) : Prop :=
-    forall t v, has_view e t v = true -> P t v x.
-  Definition okf (P : rtype -> view -> vflds -> Prop) (fs : vflds) : Prop :=
-    forall t r w, find_type e t = Some r -> In w (r_views r) -> P r w fs.
-  Definition okl (P : name -> name -> vlist -> Prop) (l : vlist) : Prop :=
-    forall t v, has_view e t v = true -> P t v l.
-
-  Lemma has_view_inv t v : has_view e t v = true ->
-    exists r w, find_type e t = Some r /\ find_view r v = Some w /\ In w (r_views r).
+  Lemma gtarget_node n r at_ k :
+    In (n, r) e -> In at_ (r_attrs r) -> gtarget at_ = Some k -> has_node e k = true.
   Proof.
-    unfold has_view. destruct (find_type e t) as [r|]; [|discriminate].
-    destruct (find_view r v) as [w|] eqn:Fv; [|discriminate]. intros _.
-    exists r, w. repeat split; auto. apply find_view_in_in in Fv. tauto.
+    intros Hn Ha Hg. pose proof Hclosed as Hc. unfold closed in Hc. rewrite forallb_forall in Hc.
+    specialize (Hc _ Hn). simpl in Hc. unfold closed_type in Hc. apply andb_true_iff in Hc.
+    destruct Hc as [_ Hc]. rewrite forallb_forall in Hc. specialize (Hc _ Ha). now rewrite Hg in Hc.
   Qed.
+
+  Definition lclosed (r : rtype) (v : name) (l : list (name * option name)) : Prop :=
+    forall en, In en l -> closed_entry e r v en = true.
+
+  Lemma entries_lclosed k r l : entries e k = Some (r, l) -> lclosed r (snd k) l.
+  Proof. intros He. exact (closed_entries e k r l Hclosed He). Qed.
+
+  Lemma has_node_inv k : has_node e k = true -> exists r l, entries e k = Some (r, l).
+  Proof. unfold has_node. destruct (entries e k) as [[r l]|]; [eauto|discriminate]. Qed.
 
   (* wire keys are view attributes, nothing else, at every depth *)
   Lemma conforms_restrict :
-    (forall x, okv (fun t v x => conforms e t v (restrict e t v x) = true) x) /\
-    (forall fs, okf (fun r w fs => conforms_f e r w (restrict_f e r w fs) = true) fs) /\
-    (forall l, okl (fun t v l => conforms_l e t v (restrict_l e t v l) = true) l).
+    (forall x k, has_node e k = true -> conforms e k (restrict e k x) = true) /\
+    (forall fs r v l, lclosed r v l -> conforms_f e r v l (restrict_f e r v l fs) = true) /\
+    (forall ls k, has_node e k = true -> conforms_l e k (restrict_l e k ls) = true).
   Proof.
-    apply val_mutind; unfold okv, okf, okl.
+    apply val_mutind.
     - reflexivity.
-    - intros fs IH t v Hv. destruct (has_view_inv _ _ Hv) as (r & w & Ft & Fv & Hw).
-      simpl. rewrite Ft, Fv. simpl. rewrite Ft, Fv. eapply IH; eauto.
-    - intros l IH t v Hv. simpl. apply IH, Hv.
+    - intros fs IH k Hk. destruct (has_node_inv _ Hk) as (r & l & He).
+      cbn [restrict]. rewrite He. cbn [conforms]. rewrite He. apply IH. eapply entries_lclosed; eauto.
+    - intros l IH k Hk. simpl. apply IH, Hk.
     - reflexivity.
-    - intros a x IHx rest IHr t r w Ft Hw. simpl.
-      destruct (view_entry (v_attrs w) a) as [ov|] eqn:Ve; [|eapply IHr; eauto].
-      destruct (find_attr r a) as [at_|] eqn:Fa; [|eapply IHr; eauto].
-      simpl. rewrite Ve, Fa. rewrite (IHr t r w Ft Hw), andb_true_r.
-      destruct (a_ty at_) as [p|t'|t'] eqn:Ty; [reflexivity| |];
-        apply IHx; eapply nested_has_view; eauto; rewrite Ty; reflexivity.
+    - intros a x IHx rest IHr r v l Hl. simpl.
+      destruct (view_entry l a) as [ov|] eqn:Ve; [|apply IHr, Hl].
+      destruct (find_attr r a) as [at_|] eqn:Fa; [|apply IHr, Hl].
+      simpl. rewrite Ve, Fa. rewrite (IHr r v l Hl), andb_true_r.
+      destruct (target v ov at_) as [[w k']|] eqn:Ht; [|reflexivity].
+      apply IHx. eapply child_node; eauto.
     - reflexivity.
-    - intros x IHx r IHr t v Hv. simpl. now rewrite (IHx t v Hv), (IHr t v Hv).
+    - intros x IHx r IHr k Hk. simpl. now rewrite (IHx k Hk), (IHr k Hk).
   Qed.
 
   (* the client rebuilds exactly what the server rendered *)
   Lemma rebuild_restrict :
-    (forall x, okv (fun t v x => rebuild e t v (restrict e t v x) = restrict e t v x) x) /\
-    (forall fs, okf (fun r w fs => rebuild_f e r w (restrict_f e r w fs) = restrict_f e r w fs) fs) /\
-    (forall l, okl (fun t v l => rebuild_l e t v (restrict_l e t v l) = restrict_l e t v l) l).
+    (forall x t v, has_view e t v = true -> rebuild e t v (restrict e (false, t, v) x) = restrict e (false, t, v) x) /\
+    (forall fs r v l, lclosed r v l -> rebuild_f e r l (restrict_f e r v l fs) = restrict_f e r v l fs) /\
+    (forall ls t v, has_view e t v = true -> rebuild_l e t v (restrict_l e (false, t, v) ls) = restrict_l e (false, t, v) ls).
   Proof.
-    apply val_mutind; unfold okv, okf, okl.
+    apply val_mutind.
     - reflexivity.
-    - intros fs IH t v Hv. destruct (has_view_inv _ _ Hv) as (r & w & Ft & Fv & Hw).
-      simpl. rewrite Ft, Fv. simpl. rewrite Ft, Fv. f_equal. eapply IH; eauto.
+    - intros fs IH t v Hv. destruct (has_node_inv _ Hv) as (r & l & He).
+      cbn [restrict]. rewrite He. cbn [rebuild]. rewrite He. cbn [snd]. f_equal. apply IH.
+      exact (entries_lclosed _ _ _ He).
     - intros l IH t v Hv. simpl. f_equal. apply IH, Hv.
     - reflexivity.
-    - intros a x IHx rest IHr t r w Ft Hw. simpl.
-      destruct (view_entry (v_attrs w) a) as [ov|] eqn:Ve; [|eapply IHr; eauto].
-      destruct (find_attr r a) as [at_|] eqn:Fa; [|eapply IHr; eauto].
-      simpl. rewrite Fa, Ve. rewrite (IHr t r w Ft Hw).
-      destruct (a_ty at_) as [p|t'|t'] eqn:Ty.
-      + unfold in_view. now rewrite Ve.
-      + f_equal. apply IHx. eapply nested_has_view; eauto. rewrite Ty. reflexivity.
-      + f_equal. apply IHx. eapply nested_has_view; eauto. rewrite Ty. reflexivity.
+    - intros a x IHx rest IHr r v l Hl. simpl.
+      destruct (view_entry l a) as [ov|] eqn:Ve; [|apply IHr, Hl].
+      destruct (find_attr r a) as [at_|] eqn:Fa; [|apply IHr, Hl].
+      simpl. rewrite Fa, Ve. rewrite (IHr r v l Hl).
+      destruct (direct (a_ty at_)) as [t'|] eqn:Hd.
+      + f_equal.
+        assert (Ht : exists w, target v ov at_ = Some (w, (false, t', nested_view ov at_))).
+        { unfold target, direct in *. destruct (a_ty at_); inversion Hd; subst; eauto. }
+        destruct Ht as [w Ht]. rewrite Ht. apply IHx.
+        eapply child_node; eauto.
+      + unfold listed. now rewrite Ve.
     - reflexivity.
     - intros x IHx r IHr t v Hv. simpl. now rewrite (IHx t v Hv), (IHr t v Hv).
   Qed.
 
-  (* what a service returns (every required attribute set) validates under any view *)
-  Lemma validate_restrict :
-    (forall x, okv (fun t v x => full_valid e t x = true -> validate e t v (restrict e t v x) = true) x) /\
-    (forall fs, okf (fun r w fs => full_valid_f e r fs = true -> validate_f e r w (restrict_f e r w fs) = true) fs) /\
-    (forall l, okl (fun t v l => full_valid_l e t l = true -> validate_l e t v (restrict_l e t v l) = true) l).
+  (* ---- view-blind validation and the generic transform, inside the envelope ---- *)
+
+  Hypothesis Hsafe : view_blind_safe e = true.
+
+  Lemma container_req n r at_ :
+    In (n, r) e -> In at_ (r_attrs r) -> is_container (a_ty at_) = true -> req_everywhere e = true.
   Proof.
-    apply val_mutind; unfold okv, okf, okl.
+    intros Hn Ha Hc. unfold view_blind_safe in Hsafe. apply orb_true_iff in Hsafe.
+    destruct Hsafe as [Hno|Hre]; [|exact Hre]. exfalso.
+    unfold no_containers in Hno. rewrite forallb_forall in Hno. specialize (Hno _ Hn). simpl in Hno.
+    rewrite forallb_forall in Hno. specialize (Hno _ Ha). now rewrite Hc in Hno.
+  Qed.
+
+  Lemma req_listed n r w a :
+    req_everywhere e = true -> In (n, r) e -> In w (r_views r) -> In a (r_attrs r) -> a_req a = true ->
+    listed (v_attrs w) (a_name a) = true.
+  Proof.
+    intros Hre Hn Hw Ha Hq. unfold req_everywhere in Hre. rewrite forallb_forall in Hre.
+    specialize (Hre _ Hn). simpl in Hre. rewrite forallb_forall in Hre. specialize (Hre _ Hw).
+    rewrite forallb_forall in Hre. specialize (Hre _ Ha). now rewrite Hq in Hre.
+  Qed.
+
+  (* a required attribute is listed by any node of the type, once every view lists them *)
+  Lemma req_listed_node k r l a :
+    req_everywhere e = true -> entries e k = Some (r, l) -> In a (r_attrs r) -> a_req a = true ->
+    listed l (a_name a) = true.
+  Proof.
+    intros Hre He Ha Hq. destruct (entries_inv _ _ _ _ He) as [Ft [[_ ->]|[_ (w & Fv & ->)]]].
+    - now apply listed_all.
+    - destruct (find_type_in _ _ _ Ft) as [n Hn]. apply find_view_in_in in Fv.
+      eapply req_listed; eauto. tauto.
+  Qed.
+
+  Definition inv (k1 k2 : nkey) : Prop :=
+    fst k1 = fst k2 /\ (req_everywhere e = true \/ (k1 = k2 /\ fst (fst k1) = false)).
+
+  Lemma validate_restrict_gen :
+    (forall x k1 k2, inv k1 k2 -> has_node e k1 = true -> has_node e k2 = true ->
+       full_valid e (snd (fst k1)) x = true -> validate e k2 (restrict e k1 x) = true) /\
+    (forall fs usr t r v1 l1 v2 l2,
+       entries e (usr, t, v1) = Some (r, l1) -> entries e (usr, t, v2) = Some (r, l2) ->
+       inv (usr, t, v1) (usr, t, v2) -> full_valid_f e r fs = true ->
+       validate_f e usr r v2 l2 (restrict_f e r v1 l1 fs) = true) /\
+    (forall ls k1 k2, inv k1 k2 -> has_node e k1 = true -> has_node e k2 = true ->
+       full_valid_l e (snd (fst k1)) ls = true -> validate_l e k2 (restrict_l e k1 ls) = true).
+  Proof.
+    apply val_mutind.
     - reflexivity.
-    - intros fs IH t v Hv. destruct (has_view_inv _ _ Hv) as (r & w & Ft & Fv & Hw).
-      simpl. rewrite Ft, Fv. simpl. rewrite Ft, Fv. rewrite andb_true_iff. intros [Hreq Hf].
-      rewrite andb_true_iff. split; [|eapply IH; eauto].
-      rewrite forallb_forall in *. intros a Ha. unfold req_checked in Ha.
-      apply in_map_iff in Ha. destruct Ha as (at_ & <- & Hat). apply filter_In in Hat.
-      destruct Hat as [Hin Hq]. apply andb_true_iff in Hq. destruct Hq as [Hq _].
-      apply andb_true_iff in Hq. destruct Hq as [Hq Hiv].
-      rewrite has_field_restrict, Hiv.
-      assert (Hfa : has_field fs (a_name at_) = true).
-      { apply Hreq. apply in_map_iff. exists at_. split; [reflexivity|]. apply filter_In. tauto. }
-      rewrite Hfa. simpl. unfold has_attr, find_attr.
-      clear -Hin. induction (r_attrs r) as [|b l IHl]; simpl in *; [tauto|].
-      destruct (String.eqb (a_name b) (a_name at_)) eqn:E; [reflexivity|].
-      destruct Hin as [->|Hin]; [now rewrite String.eqb_refl in E | auto].
-    - intros l IH t v Hv. simpl. apply IH, Hv.
+    - intros fs IH k1 k2 Hinv H1 H2 Hfv.
+      destruct k1 as [[usr t] v1], k2 as [[usr2 t2] v2]. destruct Hinv as [Hfst Hcase]. simpl in Hfst.
+      inversion Hfst; subst usr2 t2.
+      destruct (has_node_inv _ H1) as (r & l1 & He1). destruct (has_node_inv _ H2) as (r2 & l2 & He2).
+      assert (r2 = r).
+      { destruct (entries_inv _ _ _ _ He1) as [F1 _]. destruct (entries_inv _ _ _ _ He2) as [F2 _]. simpl in *. congruence. }
+      subst r2. simpl in Hfv. destruct (entries_inv _ _ _ _ He1) as [Ft _]. simpl in Ft. rewrite Ft in Hfv.
+      apply andb_true_iff in Hfv. destruct Hfv as [Hreq Hf].
+      cbn [restrict]. rewrite He1. cbn [validate]. rewrite He2. cbn [fst snd].
+      apply andb_true_iff. split.
+      + rewrite forallb_forall in *. intros a Ha. unfold req_checked in Ha. destruct usr; [destruct Ha|].
+        apply in_map_iff in Ha. destruct Ha as (at_ & <- & Hat). apply filter_In in Hat.
+        destruct Hat as [Hin Hq]. apply andb_true_iff in Hq. destruct Hq as [Hq _].
+        apply andb_true_iff in Hq. destruct Hq as [Hq Hl2].
+        rewrite has_field_restrict.
+        rewrite (Hreq (a_name at_)) by (apply in_map_iff; exists at_; split; [reflexivity|]; apply filter_In; tauto).
+        rewrite (find_attr_has r at_ Hin), andb_true_r. simpl.
+        destruct Hcase as [Hre|[Heq _]].
+        * eapply req_listed_node; eauto.
+        * inversion Heq; subst. rewrite He1 in He2. inversion He2; subst. exact Hl2.
+      + eapply IH; eauto. split; [reflexivity|exact Hcase].
+    - intros l IH k1 k2 Hinv H1 H2 Hfv. simpl. apply IH; auto.
     - reflexivity.
-    - intros a x IHx rest IHr t r w Ft Hw. simpl.
+    - intros a x IHx rest IHr usr t r v1 l1 v2 l2 He1 He2 Hinv Hfv. simpl in Hfv. simpl restrict_f.
       destruct (find_attr r a) as [at_|] eqn:Fa.
-      2:{ intros Hf. destruct (view_entry (v_attrs w) a); eapply IHr; eauto. }
-      rewrite andb_true_iff. intros [Hx Hrest].
-      destruct (view_entry (v_attrs w) a) as [ov|] eqn:Ve; [|eapply IHr; eauto].
-      simpl. rewrite Ve, Fa. rewrite (IHr t r w Ft Hw Hrest), andb_true_r.
-      destruct (a_ty at_) as [p|t'|t'] eqn:Ty; [reflexivity| |];
-        (apply IHx; [eapply nested_has_view; eauto; rewrite Ty; reflexivity | exact Hx]).
+      2:{ destruct (view_entry l1 a); eapply IHr; eauto. }
+      apply andb_true_iff in Hfv. destruct Hfv as [Hx Hrest].
+      destruct (view_entry l1 a) as [ov1|] eqn:Ve1; [|eapply IHr; eauto].
+      simpl. rewrite Fa. rewrite (IHr usr t r v1 l1 v2 l2 He1 He2 Hinv Hrest).
+      destruct (view_entry l2 a) as [ov2|] eqn:Ve2; [|reflexivity]. rewrite andb_true_r.
+      destruct (entries_inv _ _ _ _ He1) as [Ft _]. simpl in Ft. destruct (find_type_in _ _ _ Ft) as [n Hn].
+      pose proof (find_attr_in_in _ _ _ Fa) as [Hain _].
+      assert (Hl1 : lclosed r v1 l1) by (exact (entries_lclosed _ _ _ He1)).
+      assert (Hl2 : lclosed r v2 l2) by (exact (entries_lclosed _ _ _ He2)).
+      assert (Hdir : req_everywhere e = true \/ (usr = false /\ v1 = v2 /\ ov1 = ov2)).
+      { destruct Hinv as [_ [Hre|[Heq Hu]]]; [left; exact Hre|]. right. inversion Heq; subst. simpl in Hu.
+        rewrite He1 in He2. inversion He2; subst. rewrite Ve1 in Ve2. inversion Ve2; subst. auto. }
+      unfold gtarget in Hx.
+      destruct (a_ty at_) as [p|t'|t'|t'|t'|u] eqn:Ty; unfold vtarget, target; rewrite Ty.
+      + reflexivity.
+      + apply IHx.
+        * split; [reflexivity|]. destruct Hdir as [Hre|(Hu & Hv & Ho)]; [left; exact Hre|].
+          subst. right. split; reflexivity.
+        * eapply (child_node r v1 l1 a ov1 at_); eauto. unfold target. rewrite Ty. reflexivity.
+        * destruct usr.
+          -- eapply gtarget_node; eauto. unfold gtarget. rewrite Ty. reflexivity.
+          -- eapply (child_node r v2 l2 a ov2 at_); eauto. unfold target. rewrite Ty. reflexivity.
+        * exact Hx.
+      + apply IHx.
+        * split; [reflexivity|]. destruct Hdir as [Hre|(Hu & Hv & Ho)]; [left; exact Hre|].
+          subst. right. split; reflexivity.
+        * eapply (child_node r v1 l1 a ov1 at_); eauto. unfold target. rewrite Ty. reflexivity.
+        * destruct usr.
+          -- eapply gtarget_node; eauto. unfold gtarget. rewrite Ty. reflexivity.
+          -- eapply (child_node r v2 l2 a ov2 at_); eauto. unfold target. rewrite Ty. reflexivity.
+        * exact Hx.
+      + apply IHx.
+        * split; [reflexivity|]. left. eapply container_req; eauto. rewrite Ty. reflexivity.
+        * eapply (child_node r v1 l1 a ov1 at_); eauto. unfold target. rewrite Ty. reflexivity.
+        * eapply gtarget_node; eauto. unfold gtarget. rewrite Ty. reflexivity.
+        * exact Hx.
+      + reflexivity.
+      + apply IHx.
+        * split; [reflexivity|]. left. eapply container_req; eauto. rewrite Ty. reflexivity.
+        * eapply (child_node r v1 l1 a ov1 at_); eauto. unfold target. rewrite Ty. reflexivity.
+        * eapply (child_node r v2 l2 a ov2 at_); eauto. unfold target. rewrite Ty. reflexivity.
+        * exact Hx.
     - reflexivity.
-    - intros x IHx r IHr t v Hv. simpl. rewrite andb_true_iff. intros [Hx Hr].
+    - intros x IHx r IHr k1 k2 Hinv H1 H2 Hfv. simpl in *. apply andb_true_iff in Hfv. destruct Hfv as [Hx Hr].
+      now rewrite (IHx k1 k2 Hinv H1 H2 Hx), (IHr k1 k2 Hinv H1 H2 Hr).
+  Qed.
+
+  (* the generic transform finds every attribute it dereferences *)
+  Lemma gen_restrict :
+    req_everywhere e = true ->
+    (forall x k, has_node e k = true -> full_valid e (snd (fst k)) x = true ->
+       gen_ok e (snd (fst k)) (restrict e k x) = true) /\
+    (forall fs r v l, lclosed r v l -> (exists n, In (n, r) e) -> full_valid_f e r fs = true ->
+       gen_ok_f e r (restrict_f e r v l fs) = true) /\
+    (forall ls k, has_node e k = true -> full_valid_l e (snd (fst k)) ls = true ->
+       gen_ok_l e (snd (fst k)) (restrict_l e k ls) = true).
+  Proof.
+    intros Hre. apply val_mutind.
+    - reflexivity.
+    - intros fs IH k Hk Hfv. destruct (has_node_inv _ Hk) as (r & l & He).
+      destruct (entries_inv _ _ _ _ He) as [Ft _]. cbn [restrict]. rewrite He. cbn [gen_ok]. rewrite Ft.
+      simpl in Hfv. rewrite Ft in Hfv. apply andb_true_iff in Hfv. destruct Hfv as [Hreq Hf].
+      destruct (find_type_in _ _ _ Ft) as [n Hn].
+      apply andb_true_iff. split.
+      + rewrite forallb_forall in *. intros a Ha. unfold deref in Ha.
+        apply in_map_iff in Ha. destruct Ha as (at_ & <- & Hat). apply filter_In in Hat.
+        destruct Hat as [Hin Hq]. apply andb_true_iff in Hq. destruct Hq as [Hq _].
+        rewrite has_field_restrict.
+        rewrite (Hreq (a_name at_)) by (apply in_map_iff; exists at_; split; [reflexivity|]; apply filter_In; tauto).
+        rewrite (find_attr_has r at_ Hin), andb_true_r. simpl. eapply req_listed_node; eauto.
+      + apply IH; eauto. exact (entries_lclosed _ _ _ He).
+    - intros l IH k Hk Hfv. simpl. apply IH; auto.
+    - reflexivity.
+    - intros a x IHx rest IHr r v l Hl Hin Hfv. simpl in Hfv. simpl restrict_f.
+      destruct (find_attr r a) as [at_|] eqn:Fa.
+      2:{ destruct (view_entry l a); apply IHr; auto. }
+      apply andb_true_iff in Hfv. destruct Hfv as [Hx Hrest].
+      destruct (view_entry l a) as [ov|] eqn:Ve; [|apply IHr; auto].
+      simpl. rewrite Fa. rewrite (IHr r v l Hl Hin Hrest), andb_true_r.
+      unfold gtarget in *. unfold target.
+      destruct (a_ty at_) as [p|t'|t'|t'|t'|u] eqn:Ty; [reflexivity| | | | |];
+        (apply (IHx (_, _, _)); [eapply (child_node r v l a ov at_); eauto; unfold target; rewrite Ty; reflexivity | exact Hx]).
+    - reflexivity.
+    - intros x IHx r IHr k Hk Hfv. simpl in *. apply andb_true_iff in Hfv. destruct Hfv as [Hx Hr].
+      now rewrite (IHx k Hk Hx), (IHr k Hk Hr).
+  Qed.
+
+  (* no nil dereference while rebuilding what the server rendered *)
+  Lemma rebuild_ok_restrict :
+    (forall x t v, has_view e t v = true -> full_valid e t x = true ->
+       rebuild_ok e t v (restrict e (false, t, v) x) = true) /\
+    (forall fs r v l, lclosed r v l -> (exists n, In (n, r) e) -> full_valid_f e r fs = true ->
+       rebuild_ok_f e r l (restrict_f e r v l fs) = true) /\
+    (forall ls t v, has_view e t v = true -> full_valid_l e t ls = true ->
+       rebuild_ok_l e t v (restrict_l e (false, t, v) ls) = true).
+  Proof.
+    apply val_mutind.
+    - reflexivity.
+    - intros fs IH t v Hv Hfv. destruct (has_node_inv _ Hv) as (r & l & He).
+      destruct (entries_inv _ _ _ _ He) as [Ft _]. simpl in Ft.
+      cbn [restrict]. rewrite He. cbn [rebuild_ok]. rewrite He. cbn [snd].
+      simpl in Hfv. rewrite Ft in Hfv. apply andb_true_iff in Hfv. destruct Hfv as [_ Hf].
+      apply IH; auto. exact (entries_lclosed _ _ _ He). eapply find_type_in; eauto.
+    - intros l IH t v Hv Hfv. simpl. apply IH; auto.
+    - reflexivity.
+    - intros a x IHx rest IHr r v l Hl Hin Hfv. simpl in Hfv. simpl restrict_f.
+      destruct (find_attr r a) as [at_|] eqn:Fa.
+      2:{ destruct (view_entry l a); apply IHr; auto. }
+      apply andb_true_iff in Hfv. destruct Hfv as [Hx Hrest].
+      destruct (view_entry l a) as [ov|] eqn:Ve; [|apply IHr; auto].
+      simpl. rewrite Fa. rewrite (IHr r v l Hl Hin Hrest), andb_true_r.
+      destruct Hin as [n Hn]. pose proof (find_attr_in_in _ _ _ Fa) as [Hain _].
+      unfold listed. rewrite Ve. unfold gtarget in *. unfold target, direct.
+      destruct (a_ty at_) as [p|t'|t'|t'|t'|u] eqn:Ty; cbv zeta; rewrite ?andb_true_r.
+      + reflexivity.
+      + apply IHx; [|exact Hx]. eapply (child_node r v l a ov at_); eauto. unfold target. rewrite Ty. reflexivity.
+      + apply IHx; [|exact Hx]. eapply (child_node r v l a ov at_); eauto. unfold target. rewrite Ty. reflexivity.
+      + assert (Hre : req_everywhere e = true) by (eapply container_req; eauto; rewrite Ty; reflexivity).
+        apply (proj1 (gen_restrict Hre) x (false, t', nested_view ov at_)); [|exact Hx].
+        eapply (child_node r v l a ov at_); eauto. unfold target. rewrite Ty. reflexivity.
+      + assert (Hre : req_everywhere e = true) by (eapply container_req; eauto; rewrite Ty; reflexivity).
+        apply (proj1 (gen_restrict Hre) x (false, t', nested_view ov at_)); [|exact Hx].
+        eapply (child_node r v l a ov at_); eauto. unfold target. rewrite Ty. reflexivity.
+      + assert (Hre : req_everywhere e = true) by (eapply container_req; eauto; rewrite Ty; reflexivity).
+        apply (proj1 (gen_restrict Hre) x (true, u, v)); [|exact Hx].
+        eapply (child_node r v l a ov at_); eauto. unfold target. rewrite Ty. reflexivity.
+    - reflexivity.
+    - intros x IHx r IHr t v Hv Hfv. simpl in *. apply andb_true_iff in Hfv. destruct Hfv as [Hx Hr].
       now rewrite (IHx t v Hv Hx), (IHr t v Hv Hr).
   Qed.
 End Runtime.
@@ -732,64 +991,69 @@ Lemma iproject_fuel_mono e f f' t v x :
   f <= f' -> iproject f e t v = x -> x <> Out -> iproject f' e t v = x.
 Proof.
   intros Hle. unfold iproject.
-  destruct (iproj f e t v init) as [[tr s]| |] eqn:E; intros <- Hn.
-  - now rewrite (iproj_fuel_mono e f f' t v init _ Hle E) by discriminate.
-  - now rewrite (iproj_fuel_mono e f f' t v init _ Hle E) by discriminate.
+  destruct (iproj f e (false, t, v) init) as [[tr s]| |] eqn:E; intros <- Hn.
+  - now rewrite (iproj_fuel_mono e f f' _ init _ Hle E) by discriminate.
+  - now rewrite (iproj_fuel_mono e f f' _ init _ Hle E) by discriminate.
   - congruence.
 Qed.
 
 Lemma iproject_undefined e f t v tr : has_view e t v = false -> iproject f e t v <> Ok tr.
 Proof.
-  unfold iproject, has_view. destruct f as [|f]; simpl; [discriminate|].
-  destruct (find_type e t) as [r|]; [|discriminate].
-  destruct (find_view r v) as [w|]; [discriminate|discriminate].
+  unfold iproject, has_view, has_node. destruct f as [|f]; [simpl; discriminate|]. rewrite iproj_unfold.
+  destruct (entries e (false, t, v)) as [[r l]|]; discriminate.
 Qed.
 
-Lemma sproject_shape e n t v r w :
-  find_type e t = Some r -> find_view r v = Some w ->
-  exists fs, sproject (S n) e t v = PObj t v fs (req_in_view r w) /\
-             pnames fs = filter (has_attr r) (map fst (v_attrs w)) /\
+Lemma sproject_shape e n k r l :
+  entries e k = Some (r, l) ->
+  exists fs, sproject (S n) e k = pnode k fs (req_in (fst (fst k)) r l) /\
+             pnames fs = filter (has_attr r) (map fst l) /\
              forall a, pfind fs a =
-                       match view_entry (v_attrs w) a, find_attr r a with
-                       | Some ov, Some at_ => Some (child (sproject n e) at_ ov)
+                       match view_entry l a, find_attr r a with
+                       | Some ov, Some at_ => Some (child (sproject n e) (snd k) at_ ov)
                        | _, _ => None
                        end.
 Proof.
-  intros Ft Fv. simpl. rewrite Ft, Fv. eexists. split; [reflexivity|].
+  intros He. simpl. rewrite He. eexists. split; [reflexivity|].
   split; [apply sfields_names | intros a; apply sfields_child].
 Qed.
 
-Lemma restrict_keys e t v r w fs :
-  find_type e t = Some r -> find_view r v = Some w ->
-  exists fs', restrict e t v (VObj fs) = VObj fs' /\
-              keys fs' = filter (fun a => in_view w a && has_attr r a) (keys fs).
+Lemma restrict_keys e k r l fs :
+  entries e k = Some (r, l) ->
+  exists fs', restrict e k (VObj fs) = VObj fs' /\
+              keys fs' = filter (fun a => listed l a && has_attr r a) (keys fs).
 Proof.
-  intros Ft Fv. simpl. rewrite Ft, Fv. eexists. split; [reflexivity | apply keys_restrict].
+  intros He. cbn [restrict]. rewrite He. eexists. split; [reflexivity | apply keys_restrict].
 Qed.
 
 Definition selected (fixed : option name) (chosen : name) : name :=
   norm (match fixed with Some f => f | None => chosen end).
 
+Lemma inv_refl e t v : inv e (false, t, v) (false, t, v).
+Proof. split; [reflexivity|]. right. split; reflexivity. Qed.
+
 Lemma exchange_restricts e c t fixed chosen x :
-  closed e = true -> has_view e t (selected fixed chosen) = true -> full_valid e t x = true ->
-  exists h, server_respond e c t fixed chosen x = SResp h (restrict e t (selected fixed chosen) x) /\
-            client_decode e t fixed h (restrict e t (selected fixed chosen) x)
-            = COk (restrict e t (selected fixed chosen) x).
+  closed e = true -> view_blind_safe e = true ->
+  has_view e t (selected fixed chosen) = true -> full_valid e t x = true ->
+  exists h, server_respond e c t fixed chosen x = SResp h (restrict e (false, t, selected fixed chosen) x) /\
+            client_decode e t fixed h (restrict e (false, t, selected fixed chosen) x)
+            = COk (restrict e (false, t, selected fixed chosen) x).
 Proof.
-  intros Hc Hv Hx. unfold selected in *. unfold server_respond, client_decode.
+  intros Hc Hs Hv Hx. unfold selected in *. unfold server_respond, client_decode.
+  assert (Hval : forall v, has_view e t v = true -> validate e (false, t, v) (restrict e (false, t, v) x) = true).
+  { intros v Hv'. apply (proj1 (validate_restrict_gen e Hc Hs) x (false, t, v) (false, t, v)); auto using inv_refl. }
   destruct fixed as [f|].
   - rewrite Hv. exists None. split; [reflexivity|]. cbv zeta.
-    rewrite (proj1 (validate_restrict e Hc) x _ _ Hv Hx).
+    rewrite (Hval _ Hv), (proj1 (rebuild_ok_restrict e Hc Hs) x _ _ Hv Hx).
     now rewrite (proj1 (rebuild_restrict e Hc) x _ _ Hv).
   - rewrite Hv. exists (Some (norm chosen)). split; [reflexivity|]. cbv zeta. rewrite norm_idem, ?Hv.
-    rewrite (proj1 (validate_restrict e Hc) x _ _ Hv Hx).
+    rewrite (Hval _ Hv), (proj1 (rebuild_ok_restrict e Hc Hs) x _ _ Hv Hx).
     now rewrite (proj1 (rebuild_restrict e Hc) x _ _ Hv).
 Qed.
 
 Lemma has_view_false_iff e t r v :
   find_type e t = Some r -> (has_view e t v = false <-> ~ In v (map v_name (r_views r))).
 Proof.
-  intros Ft. unfold has_view. rewrite Ft. unfold find_view. rewrite <- find_view_in_none.
+  intros Ft. unfold has_view, has_node, entries. rewrite Ft. unfold find_view. rewrite <- find_view_in_none.
   destruct (find_view_in (r_views r) v); split; congruence.
 Qed.
 
